@@ -23,7 +23,8 @@ class U(dsl.Schema):
     d = dsl.Field(dsl.Integer())
 
 
-STATEMENTS = ['proj', 'filt:1', 'filt:5', 'ord', 'join', 'agg', 'filt2:1', 'filt2:5', 'ref:1', 'ref:5', 'selfjoin']
+STATEMENTS = ['proj', 'filt:1', 'filt:5', 'ord', 'join', 'agg', 'filt2:1', 'filt2:5', 'ref:1', 'ref:5', 'selfjoin',
+              'filt:-1', 'filt:-2']  # hash(-1) == hash(-2) in CPython: literals that differ while their hashes do not
 P = T.reference('p')  # an explicitly named reference shared by several statements
 
 
